@@ -25,6 +25,8 @@ def map_async(iterable, functor, *args, **kwds):
     parallelism = kwds.pop("threads", None)
     if parallelism is None:
         parallelism = cpu_count()
+    # a pool of no threads would silently process nothing
+    parallelism = max(parallelism, 1)
 
     if hasattr(iterable, "__len__"):
         # if there are less items than parallelism, don't
